@@ -77,7 +77,7 @@ CLAIMS = [
         "text": "Props/C09.lean, for every store of the right size and any S>0: forward traversal = the occupied positions in index order, each once, "
                 "ending at end(); backward traversal = its reverse; begin()==end() iff empty; iteration yields exactly the pairs of the "
                 "abstract map, each key at one position; find agrees with the map; erase(it) removes exactly that element, returns the successor "
-                "position and changes no other cell, and the iteration afterwards is exactly the former sequence without that position in the same relative order (traverse_after_erase, ltEraseAt_iteration, ltEraseAt_iteration_length), and the erase-while-iterating loop empties the table within size() steps (begin_occupied, erase_loop_empties); insert returns the position of the new or present element (C02.ltInsert_refines); "
+                "position and changes no other cell, and the iteration afterwards is exactly the former sequence without that position in the same relative order (traverse_after_erase, ltEraseAt_iteration, ltEraseAt_iteration_length), and the erase-while-iterating loop empties the table within size() steps (begin_occupied, erase_loop_empties) and ends with the empty abstract map (map_empty_of_no_iteration, erase_loop_map_empty); insert returns the position of the new or present element (C02.ltInsert_refines); "
                 "count/at/equal_range/operator[] agree with the map (ltCount_agrees, ltAt_agrees incl. out_of_range exactly when absent, "
                 "ltEqualRange_agrees, ltIndex_agrees) — the driver answers those requests with the same model functions.",
         "design_ref": "DESIGN.md 6/C09, 12",
